@@ -134,6 +134,13 @@ type Chan struct {
 	Cap    int
 	Closed bool
 	ID     int
+	// sched mode
+	Sink     bool // accepts every send immediately and invisibly (heartbeat)
+	DoneOnly bool // a context's Done channel: only close conflicts with other operations
+	Unordered bool // many-senders-one-logger channel (the monitor): sends of different goroutines commute
+	sends    int
+	recvVCs  []vclock
+	closeVC  vclock
 }
 
 // ---- strings as ropes ----
@@ -443,6 +450,9 @@ func (m *Machine) store(addr Ptr, v Value) {
 	if m.path.watch != nil && m.path.watch[addr] {
 		m.path.accesses = append(m.path.accesses, memAccess{addr, true, false, m.path.thread, m.where()})
 	}
+	if m.path.raceOn {
+		m.raceAccess(addr, true)
+	}
 	switch dst := (*addr).(type) {
 	case Struct:
 		src := v.(Struct)
@@ -484,6 +494,9 @@ func (m *Machine) load(addr Ptr) Value {
 	}
 	if m.path.watch != nil && m.path.watch[addr] {
 		m.path.accesses = append(m.path.accesses, memAccess{addr, false, false, m.path.thread, m.where()})
+	}
+	if m.path.raceOn {
+		m.raceAccess(addr, false)
 	}
 	return copyVal(*addr)
 }
